@@ -61,6 +61,7 @@ type Contract struct {
 	Ghosts   []string // universally quantified ghost parameters ("name sort")
 	FreshResult bool
 	Uses    []*Clause // lemma instantiations assumed at entry (each must be a proved lemma/axiom instance)
+	NoTerm  string    // reason why a loop of this function has no termination measure (service loop)
 	AtCalls []*AtCall // obligations on the arguments of calls made by this function (argument flow)
 	Wrap    bool    // "arith wrap": + - * are encoded with exact wrap-around instead of no-wrap obligations
 	FnSplit *Clause // function-level case split (over the entry state)
@@ -161,7 +162,7 @@ var keywords = map[string]bool{
 	"decreases": true, "loop": true, "mode": true, "inline": true, "assume-contract": true, "pure": true,
 	"let": true, "define": true, "declare": true, "axiom": true, "lemma": true, "owned": true, "model": true,
 	"global": true, "nosafety": true, "assert": true, "split": true, "guarded_by": true, "ghostparam": true,
-	"fresh-result": true, "use": true, "exports": true, "rawaxiom": true, "stamp": true, "defpred": true, "recfun": true, "arith": true, "atcall": true,
+	"fresh-result": true, "use": true, "exports": true, "rawaxiom": true, "stamp": true, "defpred": true, "recfun": true, "arith": true, "atcall": true, "noterm": true,
 }
 
 // rewriteImplies turns the infix "A ==> B" (lowest precedence, right
@@ -515,6 +516,11 @@ func (lib *SpecLib) loadFile(path, pkgPath string) error {
 			}
 			curLoop = &LoopSpec{Ordinal: n}
 			cur.Loops[n] = curLoop
+		case "noterm":
+			if cur == nil {
+				return fmt.Errorf("%s: noterm outside func", it.where)
+			}
+			cur.NoTerm = it.rest
 		case "arith":
 			if cur == nil || strings.TrimSpace(it.rest) != "wrap" {
 				return fmt.Errorf("%s: bad arith clause (want: arith wrap)", it.where)
